@@ -49,7 +49,7 @@ pub fn prop() -> Prop<Hist> {
         rule: "Cases are histories over set/get/del/merge/reopen with arbitrary merge thresholds (fragmentation, dead bytes, small file) so that merges select arbitrary subsets of files, a pool of 4-20 keys (half of the cases preload every key so old files stay mostly live) and max_file_size of a few entries. All pool keys are compared with a BTreeMap model right after every merge and after every later reopen. Non-trivial: a merge that removed a proper subset of the non-empty data files, executed after a delete or overwrite, and followed by a reopen; distinct = distinct hash of the whole case.",
         assumptions: &[
             "merges are run through the verif_merge hook at generated positions",
-            "a mismatch after reopen is given the signature tombstone-dropped only if the key is absent in the model, the store returns exactly what an independent scan of the surviving data files yields, and the file holding the key's last tombstone no longer exists",
+            "a mismatch after reopen is given the signature tombstone-dropped if the key is absent in the model, the store returns exactly what an independent scan of the surviving data files yields, and the file holding the key's last tombstone no longer exists (the defect D2, repaired in /repo 67f21c7; the signature is no longer tolerated)",
         ],
         needs_shim: false,
         budget: |t| t.pick(32000, 500000),
